@@ -14,7 +14,7 @@ compare = runcheck.compare
 
 
 def gen_cases(tier, seed):
-    return runcheck.gen_cases_for(PID, tier, seed, per_strategy_quick=40, per_strategy_thorough=1200, fault=True)
+    return runcheck.gen_cases_for(PID, tier, seed, per_strategy_quick=250, per_strategy_thorough=2500, fault=True)
 
 
 def eval_case(case):
